@@ -14,9 +14,9 @@ from vlib import *
 from pegrun import *
 import gencrate
 
-SLICES_QUICK = [("ws", 4, 2, 3, 40), ("wsmod", 2, 1, 4, 400), ("wspred", 1, 1, 4, 80), ("wsov", 2, 3, 4, 30), ("wsref", 2, 3, 3, 120), ("pushws", 1, 1, 5, 40), ("shadow", 2, 3, 3, 25), ("core", 2, 3, 3, 15), ("stack", 2, 3, 4, 15), ("builtin", 2, 3, 3, 15),
+SLICES_QUICK = [("ws", 4, 2, 3, 40), ("wsmod", 2, 1, 4, 400), ("wspred", 1, 1, 4, 130), ("wsov", 2, 3, 4, 30), ("wsref", 2, 3, 3, 120), ("pushws", 1, 1, 5, 40), ("shadow", 2, 3, 3, 25), ("core", 2, 3, 3, 15), ("stack", 2, 3, 4, 15), ("builtin", 2, 3, 3, 15),
                 ("counted", 2, 3, 4, 10), ("skip", 4, 3, 3, 12), ("factor", 2, 1, 4, 12), ("restore", 4, 1, 4, 12)]
-SLICES_THOROUGH = [("ws", 8, 3, 3, 300), ("wsmod", 2, 1, 4, 400), ("wspred", 1, 1, 4, 80), ("wsov", 4, 3, 4, 150), ("wsref", 4, 3, 3, 600), ("pushws", 2, 1, 5, 120), ("shadow", 4, 3, 3, 120), ("core", 8, 4, 4, 150), ("stack", 8, 4, 4, 150), ("builtin", 8, 4, 3, 120),
+SLICES_THOROUGH = [("ws", 8, 3, 3, 300), ("wsmod", 2, 1, 4, 400), ("wspred", 1, 1, 4, 130), ("wsov", 4, 3, 4, 150), ("wsref", 4, 3, 3, 600), ("pushws", 2, 1, 5, 120), ("shadow", 4, 3, 3, 120), ("core", 8, 4, 4, 150), ("stack", 8, 4, 4, 150), ("builtin", 8, 4, 3, 120),
                    ("counted", 4, 4, 4, 100), ("skip", 8, 4, 4, 120), ("factor", 4, 1, 5, 120), ("restore", 8, 1, 5, 120)]
 
 
